@@ -991,6 +991,9 @@ impl Element {
                     // update the character data
                     {
                         let mut element = self.0.write();
+                        // the sub elements of an element with mixed content are replaced, too: they are removed
+                        // from the model like remove_sub_element() does it, not just dropped from the content
+                        element.remove_all_sub_elements(&model)?;
                         element.content.clear();
                         element.content.push(ElementContent::CharacterData(chardata));
                     }
